@@ -170,6 +170,11 @@ def run_history(sb, i, rnd, v, xattrs):
     root = sb.path("h%d" % i)
     os.makedirs(os.path.join(root, "tmp"))
     gen_tree(rnd, os.path.join(root, "t"), xattrs)
+    if v.get("big"):
+        for name, size in (("big70k.bin", 70001), ("big300k.bin", 300000), ("big1m.bin", (1 << 20) + 4097)):
+            with open(os.path.join(root, "t", name), "wb") as f:
+                f.write((bytes(rnd.getrandbits(8) for _ in range(4096)) * (size // 4096 + 1))[:size])
+            os.utime(os.path.join(root, "t", name), (1_600_000_000, 1_600_000_000))
     src = snap(os.path.join(root, "t"), "t")
     cargs, xargs = keep_args(v, "create"), keep_args(v, "extract")
     enc = v["cipher"] != ""
@@ -290,6 +295,13 @@ def histories(c, tier, seed):
     rnd = random.Random(seed * 104729 + 2)
     n = 60 if tier == "quick" else 2000
     vs, cov = vectors(rnd, n, tier == "quick")
+    # forced rows: large files through the streaming (solid) and the building writers, stored, every cipher mode — a
+    # writer below the cipher or the compressor that treats large single writes specially shows only here
+    base = {"split": 0, "kdir": 1, "ktime": 1, "kperm": 1, "kxattr": 0, "sides": "both", "big": 1}
+    for comp, ciph, solid, tr in (("--store", "--aes=ctr --pbkdf2=r=1", 1, "file"), ("--store", "--camellia=ctr --pbkdf2=r=1", 1, "pipe"),
+                                  ("--store", "pw", 1, "file"), ("--store", "--aes=cbc --pbkdf2=r=1", 0, "stdio-f"),
+                                  ("--zstd=1", "--aes=ctr --pbkdf2=r=1", 0, "file"), ("--deflate=1", "", 1, "pipe")):
+        vs.append(dict(base, comp=comp, cipher=ciph, solid=solid, transport=tr))
     if cov:
         c.notes.append("option vectors: %d rows cover %d of %d value pairs of the 10 factors" % (n, cov[0], cov[1]))
     cases, outs, orc = [], [], {}
